@@ -31,6 +31,9 @@ SKY_POS = [
     ('10:02:00', '-20:15:00', 150.5, 10 + 2 / 60, -20.25),        # a:b:c longitude: hours only for equatorial frames
     ('10h02m00s', '-20d15m00s', 150.5, 150.5, -20.25),
     ('+150.5', '+20.25', 150.5, 150.5, 20.25),
+    ('0:30:00', '-0:30:00', 7.5, 0.5, -0.5),                      # sign carried by "-0"
+    ('00h30m00s', '-00d00m36s', 7.5, 7.5, -0.01),
+    ('23:59:59.5', '+0:00:01', 359.9979166666667, 23 + 59 / 60 + 59.5 / 3600, 1 / 3600),
 ]
 SIZE_NOTATIONS = {'sky': [('', 1.0), ('"', 1 / 3600), ("'", 1 / 60), ('d', 1.0), ('r', 180 / np.pi)],
                   'pixel': [('', 1.0), ('i', 1.0)]}
@@ -93,7 +96,7 @@ def gen_line(g, frame, shape, variant):
             ty, vy = g.num('y')
             sfx = g.pick(['', 'i'], 3)
             return [tx + sfx, ty + sfx], ('pix', vx - 1, vy - 1)
-        lt, bt, lon_eq, lon_other, lat = SKY_POS[(variant + i) % len(SKY_POS)]
+        lt, bt, lon_eq, lon_other, lat = SKY_POS[(g.idx + 4 * variant + i) % len(SKY_POS)]
         return [lt, bt], ('sky', lon_eq if equatorial else lon_other, lat)
 
     def size():
@@ -102,7 +105,7 @@ def gen_line(g, frame, shape, variant):
         return t + sfx, (v if pixel else v * scale)
 
     def angle():
-        t, v = ANGLES[(variant + g.k) % len(ANGLES)]
+        t, v = ANGLES[(g.idx // 2 + variant + g.k) % len(ANGLES)]
         return t, v
 
     P = 'Pixel' if pixel else 'Sky'
@@ -158,21 +161,26 @@ def gen_line(g, frame, shape, variant):
         for a, b in zip(radii, radii[1:]):
             g.m.assume(a < b)
         return texts, [(f'CircleAnnulus{P}Region', {'center': c, 'inner_radius': a, 'outer_radius': b}) for a, b in zip(radii, radii[1:])]
-    if shape in ('ellipse-annulus', 'box-annulus'):
+    if shape in ('ellipse-annulus', 'box-annulus', 'ellipse-annulus3', 'box-annulus3'):
         p, c = pos()
-        (a1t, a1), (b1t, b1), (a2t, a2), (b2t, b2) = size(), size(), size(), size()
-        g.m.assume(a1 < a2)
-        g.m.assume(b1 < b2)
+        npairs = 3 if shape.endswith('3') else 2
+        pairs = [(size(), size()) for _ in range(npairs)]
+        for ((_, a_lo), (_, b_lo)), ((_, a_hi), (_, b_hi)) in zip(pairs, pairs[1:]):
+            g.m.assume(a_lo < a_hi)
+            g.m.assume(b_lo < b_hi)
         gt, gv = angle()
         f = 2 if shape.startswith('ellipse') else 1
         cls = f'EllipseAnnulus{P}Region' if shape.startswith('ellipse') else f'RectangleAnnulus{P}Region'
-        return p + [a1t, b1t, a2t, b2t, gt], [(cls, {'center': c, 'inner_width': f * a1, 'inner_height': f * b1,
-                                                     'outer_width': f * a2, 'outer_height': f * b2, 'angle': gv})]
+        texts = p + [t for ((at, _), (bt, _)) in pairs for t in (at, bt)] + [gt]
+        exp = [(cls, {'center': c, 'inner_width': f * lo[0][1], 'inner_height': f * lo[1][1],
+                      'outer_width': f * hi[0][1], 'outer_height': f * hi[1][1], 'angle': gv}) for lo, hi in zip(pairs, pairs[1:])]
+        return texts, exp
     raise ValueError(shape)
 
 
 SHAPE_KEYWORD = {'circle': 'circle', 'ellipse': 'ellipse', 'box': 'box', 'polygon': 'polygon', 'line': 'line', 'point': 'point',
-                 'text': 'text', 'annulus': 'annulus', 'ellipse-annulus': 'ellipse', 'box-annulus': 'box'}
+                 'text': 'text', 'annulus': 'annulus', 'ellipse-annulus': 'ellipse', 'box-annulus': 'box',
+                 'ellipse-annulus3': 'ellipse', 'box-annulus3': 'box'}
 
 
 def render(shape, texts, style, sign, props, casing):
@@ -369,7 +377,7 @@ def h_special(i, m):
 
 def harnesses(tier):
     P = functools.partial
-    n = 176 if tier == 'quick' else 880
+    n = 216 if tier == 'quick' else 1080
     hs = [(f'program/{i:04d}', P(h_program, i)) for i in range(n)]
     for i in range(len(SPECIAL)):
         hs.append((f'state-rule/{i:02d}', P(h_special, i)))
@@ -390,11 +398,11 @@ META = {
                           '_define_raw_metadata / _parse_pixel_coord / _parse_sky_coord / _parse_angle / _parse_size / _parse_shape_params / '
                           '_define_region_params / _make_region', 'regions.io.ds9.meta._split_raw_metadata / _translate_ds9_to_visual',
                           'regions.io.ds9.core templates and frame map'],
-    'bounds': {'quick': {'programs': '176 generated files = 8 frames x 10 shape forms x 2.2 variants, each: optional unsupported frame, optional global line, '
+    'bounds': {'quick': {'programs': '216 generated files = 8 frames x 12 shape forms x 2.25 variants, each: optional unsupported frame, optional global line, '
                                      'comment / unsupported shape noise, one region line (separator style, case, sign, property list enumerated), one probe line',
-                         'numbers': 'pixel coordinates and all sizes symbolic (any magnitude); sky positions in 6 concrete notations; angles 5 notations',
+                         'numbers': 'pixel coordinates and all sizes symbolic (any magnitude); sky positions in 9 concrete notations (incl. negative sexagesimal values below one degree); angles 5 notations',
                          'state rules': f'{len(SPECIAL)} literal files (no frame, frame reset by unsupported frames, composite, semicolons, sign persistence, text comments)'},
-               'thorough': {'programs': 880}},
+               'thorough': {'programs': 1080}},
     'outside_claim': ['sexagesimal arithmetic is astropy Angle (the check fixes which unit is handed to it)', 'files longer than ~6 lines: by induction over lines, '
                       'given that the parser state is (frame, global properties, composite properties), which the probe line observes after every generated line',
                       'DS9 features outside the supported subset (templates, multiple WCS, point shapes with size in a separate token, ...)'],
